@@ -9,6 +9,7 @@ package main
 //           CreateFunToken(from coin), in creation order
 
 import (
+	"crypto/sha256"
 	"fmt"
 	"math/big"
 	"sort"
@@ -23,6 +24,7 @@ import (
 	"github.com/ethereum/go-ethereum/crypto"
 
 	"github.com/NibiruChain/nibiru/v2/eth"
+	"github.com/NibiruChain/nibiru/v2/eth/crypto/ethsecp256k1"
 	"github.com/NibiruChain/nibiru/v2/x/common/testutil/testapp"
 	"github.com/NibiruChain/nibiru/v2/x/evm"
 	"github.com/NibiruChain/nibiru/v2/x/evm/embeds"
@@ -80,7 +82,19 @@ func runFunToken(r *hx.R, n int, w *hx.W, _ []string) error {
 	}
 	_ = testapp.FundModuleAccount(deps.App.BankKeeper, deps.Ctx, authtypes.FeeCollectorName, sdk.NewCoins(sdk.NewCoin("unibi", sdk.NewIntFromBigInt(one18))))
 	gasPrice := big.NewInt(0)
-	keys := evmtest.NewEthPrivAccs(3)
+	// deterministic account keys: the FunToken registry iterates by ERC20 address, which depends on the deployer — with random keys
+	// the same seed gave different histories from run to run
+	keys := make([]evmtest.EthPrivKeyAcc, 3)
+	for i := range keys {
+		sum := sha256.Sum256([]byte(fmt.Sprintf("verif-funtoken-key-%d", i)))
+		pk := &ethsecp256k1.PrivKey{Key: sum[:]}
+		ecdsaKey, err := pk.ToECDSA()
+		if err != nil {
+			return err
+		}
+		addr := crypto.PubkeyToAddress(ecdsaKey.PublicKey)
+		keys[i] = evmtest.EthPrivKeyAcc{EthAddr: addr, NibiruAddr: eth.EthAddrToNibiruAddr(addr), PrivKey: pk, KeyringSigner: evmtest.NewSigner(pk)}
+	}
 	accts := []*ftAcct{{eth: evm.EVM_MODULE_ADDRESS, nibi: eth.EthAddrToNibiruAddr(evm.EVM_MODULE_ADDRESS)}}
 	for i := range keys {
 		accts = append(accts, &ftAcct{eth: keys[i].EthAddr, nibi: keys[i].NibiruAddr, key: &keys[i]})
